@@ -155,8 +155,9 @@ def pollDispatch (w : World) (op : Nat) (rest : List K) : Option World :=
       | some o =>
         if info.kind.isTimer then
           if o.kind == .timer && o.evR && o.hR == op then
-            -- timer handler: DelRead by the poller, then `delete pendingTimers; state = ready; cb()`
-            let w := setObj { w with pending := w.pending - 1 } { o with evR := false, tstate := .ready, cancelledRep := false }
+            -- timer handler: DelRead by the poller, then `delete pendingTimers; state = ready; cb()`; the wrapper of a
+          -- repeating schedule notes the number of Cancels so far (`cancelsBefore`) when it starts, a one-shot callback does not
+            let w := setObj { w with pending := w.pending - 1 } { o with evR := false, tstate := .ready, cancelledRep := (o.cancelledRep && info.kind != OpKind.timerRep) }
             some { w with stack := .user op (.timerDone o.id (info.kind == .timerRep)) :: .pollCall true :: rest }
           else none
         else if o.kind == .timer then none
